@@ -712,7 +712,7 @@ def record_and_enumerate(ctx, scens, nprocs):
 
 def run(ctx):
     rnd = random.Random(ctx.seed)
-    nprocs = 16
+    nprocs = int(os.environ.get("VERIF_PROCS", "16"))
     import signac  # noqa: imported once here so that forked children do not pay for it
     ctx.assumptions += ["rename(2) is atomic and a process crash loses nothing a completed write(2) delivered (PosixFs model; power loss is out of scope)",
                         "harness/fsshim.py interposes on every fs entry point (audited with strace in the thorough tier)",
@@ -849,7 +849,7 @@ def run(ctx):
     # ---- thorough: freeze == kill -9, strace audit ---------------------------------------------------------
     if not ctx.quick:
         hard_crosscheck(ctx, [c for c in cases if c[1].get("crash_at")], work, rnd, nprocs)
-        audit(ctx, [s for s in scens if s.config == "default"][:6])
+        audit(ctx, [s for s in scens if s.config == "default"])
     if mut:
         ctx.notes.append("VERIF_MUTATION=%s was active" % mut)
 
